@@ -29,6 +29,7 @@ ThAllowed(st, ev) ==
     [] ev.k = "push" -> st.w = ev.t /\ ev.s = ev.t /\ st.ready[ev.s] /\ ev.s \notin st.list
     [] ev.k = "erase" -> st.w = ev.t /\ ev.s = ev.t /\ ev.s \in st.list /\ st.ready[ev.s]
     [] ev.k = "visit" -> ev.t \in st.r /\ ev.s \in st.list /\ st.ready[ev.s]
+    [] ev.k = "ilock" -> TRUE                        \* an operation on a per-instance lock (a scheduling point only)
     [] ev.k = "begin" -> TRUE
     [] ev.k = "guest" -> ev.cur = ev.t               \* the executing sandbox is the thread's own
     [] ev.k = "cb" -> ev.sbref = ev.t                \* the callback receives the thread's own sandbox
